@@ -41,6 +41,12 @@ PROPS = {
         "modelled": ["Vec/slice plumbing (extend_from_slice, chunks, copy_from_slice) as list take/drop/append", "the decoder's write pattern as a list of (position, byte) writes"],
         "assumptions": ["object-level inversion through the real decoder is part of the correspondence run (all source packets, shuffled) and of C01's theorem"],
     },
+    "C17": {
+        "thm_modules": ["Rq.Thm.C17"],
+        "engines": [("cache", "release"), ("cache", "debug")],
+        "modelled": ["Mutex = mutual exclusion: each of the two critical sections is one atomic step; lock poisoning ignored", "HashMap as an association list with distinct keys, VecDeque as a list, Arc<Plan> as the plan value", "plan generation as a pure function gen : K -> Plan"],
+        "assumptions": ["real threads are parked at the yield hook between the critical sections and released one step at a time along seeded schedules (all 20 interleavings of two racing requests, eviction races at capacity-1/capacity/capacity+1, lost race followed by > capacity sizes, random schedules), plus a free-running 8-thread soak"],
+    },
     "C13": {
         "thm_modules": ["Rq.Thm.C13"],
         "engines": [("wire", "release")],
@@ -63,3 +69,4 @@ for _p, _e in {"C11": ["kernels"], "C12": ["kernels", "slab"], "C09": ["linear",
     PROPS.setdefault(_p, {"thm_modules": [], "engines": [(e, "release") for e in _e]})
 PROPS.setdefault("C03", {"thm_modules": [], "engines": [("overhead", "release")], "level": "other"})
 PROPS.setdefault("C16", {"thm_modules": [], "engines": [("matrices", "release"), ("matrices", "debug")]})
+PROPS.setdefault("C07", {"thm_modules": [], "engines": [("configs", "release"), ("configs", "debug")], "nostd_workload": True})
